@@ -97,7 +97,7 @@ def check_case(case):
 
 OPS = ['delete', 'duplicate', 'swap', 'move', 'truncate', 'retag', 'orphan-trailer', 'dup-trailer', 'bad-count', 'empty-segment',
        'blank-segment', 'sep-only-segment', 'no-elements', 'extra-elements', 'extra-components', 'long-segment', 'second-isa',
-       'unknown-gs08', 'bad-isa12', 'leading-blank', 'trailing-seps', 'bad-bht02', 'bad-hl', 'lowercase-id', 'isa-15-elements', 'delete-header', 'garble-element', 'garble-element', 'bad-lx', 'extra-elements', 'empty-first-component', 'empty-first-component', 'trailer-before-header', 'append-orphan-envelope', 'pile-up', 'pile-up', 'pile-up', 'foreign-st01', 'foreign-st01']
+       'unknown-gs08', 'bad-isa12', 'leading-blank', 'trailing-seps', 'bad-bht02', 'bad-bht02', 'bad-bht02', 'bad-hl', 'lowercase-id', 'isa-15-elements', 'delete-header', 'garble-element', 'garble-element', 'bad-lx', 'extra-elements', 'empty-first-component', 'empty-first-component', 'trailer-before-header', 'append-orphan-envelope', 'pile-up', 'pile-up', 'pile-up', 'foreign-st01', 'foreign-st01']
 
 
 def mutate(text, ch, nops):
@@ -195,7 +195,7 @@ def mutate(text, ch, nops):
             if k:
                 p = segs[k[0]].split(ele)
                 if len(p) > 2:
-                    p[2] = ch.choice(['11', '13', '00', 'XX', ''])
+                    p[2] = ch.choice(['11', '13', '00', 'XX', '', '18', '36', '1'])
                     segs[k[0]] = ele.join(p)
         elif op == 'bad-hl':
             k = [j for j, s in enumerate(segs) if s.startswith('HL')]
